@@ -297,7 +297,11 @@ def shapes(tier, seed):
         (["Y", "E", "E"], [[(0, "Z")], [(0, "Z"), (2, "X")]]),
         (["RY", "", "E", "E"], [[(0, "Z")], [(1, "Z"), (2, "X")]]),
     ]
-    for i, (lay, words) in enumerate(layouts if tier == "thorough" else layouts[:11]):
+    wire_gates = ["X", "Z", "RX", "RZ", "RXpi"] if tier == "quick" else ["X", "Z", "RX", "RZ", "RXpi", "Y", "RY", "H", "RX3pi"]
+    for g0 in wire_gates:
+        for g1 in wire_gates:
+            layouts.append(([f"{g0}.{g1}", "E", "E"], [[(0, "Z")], [(0, "Z"), (1, "X")], [(0, "X"), (2, "Z")], [(0, "Y")]]))
+    for i, (lay, words) in enumerate(layouts if tier == "thorough" else layouts[:11] + layouts[13:]):
         out.append(Shape(f"trim/{i}_" + "|".join(x or "idle" for x in lay), h_trim, dict(layout=lay, words=words), modules=MODS, max_paths=64,
                          policy=dict(mod_range=(-4, 4))))
     out.append(Shape("canary/trim", h_trim, dict(layout=["X", "E", "E"], words=[[(0, "Z")], [(1, "Z")]], canary=True), modules=MODS, max_paths=64, canary=True))
